@@ -172,6 +172,16 @@ class NaiveOracle:
             per[a.pool_id] = per.get(a.pool_id, 0) + 1
         if any(v > 1 for v in per.values()):
             raise Violation("C17.two_containers_per_pool", {"per_pool": per}, t)
+        if asg or rd["results"]:
+            for p in R.pipes:
+                if rd["pre_failed"].get(p.pipeline_id, 0) > 0 and rd["pre_ready"].get(p.pipeline_id):
+                    R.probe("failed_pipeline_with_ready_operator")
+                    ops = list(p.values)
+                    failed = [i for i, o in enumerate(ops) if o.state().value == "failed"]
+                    now_assigned = set(id(o) for a in asg for o in a.ops)
+                    if failed and any(id(o) in rd["pre_ready"][p.pipeline_id] and (o.state().value == "pending" or id(o) in now_assigned)
+                                      for o in ops[:min(failed)]):
+                        R.probe("ready_pending_before_failed")
         for a in asg:
             if (a.cpu, a.ram) != tuple(rd["pre"][a.pool_id]):
                 raise Violation("C17.not_whole_free", {"pool": a.pool_id, "given": [a.cpu, a.ram],
